@@ -13,8 +13,13 @@ def batchArg : P BatchArg := do
 
 def ops05 : List (String × Handler) := [
   ("batchplan", do
+    let pr ← tok
+    let proc ← match pr with
+      | "gaussian" => pure Proc.gaussian | "poisson" => pure Proc.poisson
+      | "excitation" => pure Proc.excitation | "minvar" => pure Proc.minvar
+      | t => throw s!"bad procedure `{t}`"
     let n ← nat; let b ← batchArg
-    let bs := getBatchSize b n
+    let bs := effectiveBatch proc b n
     let ws := batchPlan n bs
     pure (" ".intercalate (toString bs :: toString ws.length ::
       ws.map (fun w => s!"{w.idx} {showBool w.padded} {w.start} {w.stop}"))))
